@@ -1023,29 +1023,37 @@ def range_round(ctx: Ctx, batch: Batch, sk=None, scenario=None):
             add_rcreate(ctx, batch, pk, value, a, b, draws, sdraws, att0)
         elif scenario == "wrong-range":
             # the same proof presented for a range that does not contain the value
-            for shift in ["same-a", "same-b", "above", "below", "narrow"]:
-                if shift == "same-a":      # only the upper bound moves below the value: only the c2 test can object
-                    a2, b2 = a, value - 1
-                elif shift == "same-b":    # only the lower bound moves above the value: only the c1 test can object
-                    a2, b2 = value + 1, b
-                elif shift == "above":
-                    a2, b2 = value + 1 + rng.randrange(3), value + 1 + width + rng.randrange(3, 50)
-                elif shift == "below":
-                    b2 = value - 1 - rng.randrange(3)
-                    a2 = b2 - width - rng.randrange(50)
-                    if b2 < 1 or a2 < 0:
-                        continue
-                else:
-                    a2, b2 = value + 1, value + 1
+            # the verifier's range is chosen independently of the range the proof was built for
+            cands = [("same-a", a, value - 1), ("same-b", value + 1, b),
+                     ("above", value + 1 + rng.randrange(3), value + 1 + width + rng.randrange(3, 50)),
+                     ("below", value - 1 - rng.randrange(3) - width - rng.randrange(50), value - 1 - rng.randrange(3)),
+                     ("narrow", value + 1, value + 1), ("superset", a - 1, b + 1), ("subset", a + 1, b - 1),
+                     ("wider-right", a, b + 1 + rng.randrange(5)), ("wider-left", a - 1 - rng.randrange(5), b)]
+            offs = {1, -1, 2, -2, 3, -3, width, -width, width + 1, -(width + 1), width + 2, 2 * width + 3,
+                    rng.randrange(4, 100), -rng.randrange(4, 100)} - {0}
+            if len(offs) > 9:
+                offs = set(rng.sample(sorted(offs), 9)) | {width + 1, -(width + 1)}
+            cands += [(f"same-width{k:+d}", a + k, b + k) for k in sorted(offs)]
+            for shift, a2, b2 in cands:
+                if a2 < 0 or b2 < 1 or a2 > b2 or (a2, b2) == (a, b):
+                    continue
                 alg2 = ralg.PengBaoRangeAlgorithm("r", {"r": {"algorithm": "pengbaorange", "key_size": 32,
                                                               "min": a2, "max": b2}})
-                yes, no = verdict(att, ch, resp, alg2)
-                ctx.count(f"range:wrong-range:{shift}")
-                if yes != 0.0:
+                pub2 = PengBaoAttestation.unserialize(att.serialize(), "r")       # what a verifier would hold
+                yes, no = verdict(pub2, ch, resp, alg2)
+                inside2 = a2 <= value <= b2
+                kind = "same-width" if shift.startswith("same-width") else shift
+                ctx.count(f"range:other-range:{kind}:{'value-inside' if inside2 else 'value-outside'}")
+                if yes != 0.0 and not inside2:
                     ctx.oracle_fail("PengBaoPublicData.check:outside-accepted",
-                                    f"proof for {value} in [{a},{b}] accepted for the range [{a2},{b2}]",
-                                    dict(rp, a2=a2, b2=b2))
-                if shift in ("same-a", "same-b") or rng.random() < 0.34:
+                                    f"proof for {value} built for [{a},{b}] accepted by a verifier whose range is "
+                                    f"[{a2},{b2}]", dict(rp, a2=a2, b2=b2))
+                elif yes != 0.0:
+                    ctx.oracle_fail("PengBaoPublicData.check:other-range-accepted",
+                                    f"proof built for [{a},{b}] accepted as a proof for the different range "
+                                    f"[{a2},{b2}]", dict(rp, a2=a2, b2=b2))
+                if shift in ("same-a", "same-b") or shift.startswith("same-width") and rng.random() < 0.4 \
+                        or rng.random() < 0.25:
                     add_rcheck(ctx, batch, pk, att.publicdata, a2, b2, s, t, x, y, u, v, yes == 1.0,
                                "range check (other range)")
         else:  # tampered responses: the model predicts the verdict
@@ -1160,6 +1168,296 @@ def add_rcreate(ctx, batch, pk, value, a, b, draws, sdraws, att0):
               cmp=lambda m, c: " ".join(m.split()[:-12]) == c, tag="create_attest_pair")
 
 
+# ---- the protocol driver: AttestationCommunity nodes on a network that duplicates, re-orders, delays and loses ---------
+NET_MODES = ["clean", "dup-responses", "dup-challenges", "reorder", "late-replay", "lossy-timeouts", "mixed"]
+
+
+class _OsShim:
+    """stands in for the `os` module inside wallet/community.py: urandom comes from the run's PRNG and is recorded"""
+
+    def __init__(self, rng, real_os):
+        self._rng, self._os, self.calls = rng, real_os, []
+
+    def urandom(self, n):
+        b = bytes(self._rng.randrange(256) for _ in range(n))
+        self.calls.append(b)
+        return b
+
+    def __getattr__(self, name):
+        return getattr(self._os, name)
+
+
+def community_round(ctx: Ctx, batch: Batch, mode: str, id_format: str = "id_metadata"):
+    import asyncio
+    try:
+        asyncio.run(_community_round(ctx, batch, mode, id_format))
+    except _Diverged:
+        ctx.count("community:step-limit")
+
+
+async def _community_round(ctx: Ctx, batch: Batch, mode: str, id_format: str):  # noqa: C901, PLR0912, PLR0915
+    import asyncio
+    import os as real_os
+    from ipv8.attestation.wallet import community as wcom
+    from ipv8.attestation.wallet.caches import HashCache
+    from ipv8.attestation.wallet.community import AttestationCommunity, AttestationSettings
+    from ipv8.attestation.wallet.payload import ChallengePayload, ChallengeResponsePayload
+    from ipv8.test.mocking.endpoint import internet
+    from ipv8.test.mocking.ipv8 import MockIPv8
+    rng = ctx.rng
+    nodes = [MockIPv8("curve25519", AttestationCommunity, settings=AttestationSettings(working_directory=":memory:"))
+             for _ in range(2)]
+    prover, verifier = nodes[0].overlay, nodes[1].overlay
+    shim = _OsShim(rng, real_os)
+    choices = []
+
+    def rec_choice(seq):
+        v = seq[rng.randrange(len(seq))]
+        choices.append(v)
+        return v
+
+    inflight = []          # [msg_id, src index, dst index, packet]
+    delivered_responses = []
+    addr = [n.endpoint.wan_address for n in nodes]
+
+    def make_send(src):
+        def send(address, packet, *a, **kw):
+            dst = addr.index(address) if address in addr else None
+            if dst is not None:
+                inflight.append([packet[len(prover._prefix)], src, dst, packet])  # noqa: SLF001
+        return send
+
+    for i, n in enumerate(nodes):
+        n.endpoint.send = make_send(i)
+
+    async def settle():
+        for _ in range(4):
+            await asyncio.sleep(0)
+
+    def deliver(item):
+        nodes[item[2]].endpoint.notify_listeners((addr[item[1]], item[3]))
+
+    value = value_of_class(rng, rng.choice(VALUE_CLASSES))
+    others = neighbour_values(rng, value)
+    rp = {"kind": "community", "mode": mode, "value": value.hex(), "id_format": id_format}
+    results = []
+    try:
+        with Patched((wcom, "os", shim), (wcom, "choice", rec_choice)):
+            algorithm = prover.get_id_algorithm(id_format)
+            sk = algorithm.generate_secret_key()
+            rp["sk"] = sk.serialize().hex()
+            if not check_key_hypotheses(ctx, sk, "community round"):
+                return
+            blob = algorithm.attest(sk.public_key(), value)
+            att = algorithm.get_attestation_class().unserialize(blob, id_format)
+            ahash = hashlib.sha1(blob).digest()
+            prover.database.insert_attestation(att, ahash, sk, id_format)
+            prover.attestation_keys[ahash] = (sk, id_format)
+            verifier.verify_attestation_values(addr[0], ahash, [value, *others],
+                                               lambda h, vals: results.append(list(vals)), id_format)
+            pcache = verifier.request_cache.get(*HashCache.id_from_hash("proving-attestation", ahash))
+            # the attestation transfer (request + chunks) is delivered reliably, in order
+            for _ in range(200):
+                moved = False
+                for it in list(inflight):
+                    if it[0] in (1, 2):
+                        inflight.remove(it)
+                        deliver(it)
+                        await settle()
+                        moved = True
+                if not moved:
+                    break
+            n = len(pcache.challenges)
+            if n == 0:
+                ctx.oracle_fail("community:no-challenges", "the verifier created no challenges after the attestation "
+                                                           "arrived", rp)
+                return
+            idmap = {HashCache.id_from_hash("proving-hash", hashlib.sha1(c).digest())[1]: i
+                     for i, c in enumerate(pcache.challenges)}
+            hidx = {hashlib.sha1(c).digest(): i for i, c in enumerate(pcache.challenges)}
+            fresh = [0]
+
+            def cid(challenge_hash):
+                num = HashCache.id_from_hash("proving-hash", challenge_hash)[1]
+                if num not in idmap:
+                    idmap[num] = n + fresh[0]
+                    fresh[0] += 1
+                return idmap[num]
+
+            def scan_new_challenges():
+                for it in inflight:
+                    if it[0] == 3 and len(it) == 4:
+                        _, _, pl = prover._ez_unpack_auth(ChallengePayload, it[3])  # noqa: SLF001
+                        it.append(cid(hashlib.sha1(pl.challenge).digest()))
+
+            # independent decryption of the pair sums (oracle)
+            p = sk.p
+            g = fval(sk.g)
+            t = e_powf(g, sk.t1, p)
+            tpow = [e_powf(t, m, p) for m in range(3)]
+            sums = []
+            for bp in att.bitpairs:
+                d = e_powf(e_mul(e_mul(fval(bp.a), fval(bp.b), p), fval(bp.complement), p), sk.t1, p)
+                sums.append(next((m for m in range(3) if d == tpow[m]), 3))
+            profile = [sums.count(k) for k in range(4)]
+
+            def snapshot():
+                un = [hidx[hashlib.sha1(c).digest()] for c in pcache.challenges]
+                pend = sorted((idmap.get(c.number, -1), c.honesty_check)
+                              for c in verifier.request_cache._identifiers.values()  # noqa: SLF001
+                              if c.prefix == "proving-hash")
+                rel = [pcache.relativity_map.get(k, 0) for k in range(4)]
+                return un, pend, rel, len(results)
+
+            scan_new_challenges()
+            events = []
+            snaps = [snapshot()]
+            delivered_ids = set()
+            budget = {"dup": 3 * n, "drop": max(2, n // 3), "timeout": max(2, n // 2), "replay": 2 * n}
+            steps = 0
+
+            def verifier_event(kind, ident, r):
+                ncalls, nch = len(shim.calls), len(choices)
+                return ncalls, nch, kind, ident, r
+
+            async def do_deliver(it, keep=False):
+                if not keep:
+                    inflight.remove(it)
+                if it[0] == 4:
+                    _, _, pl = verifier._ez_unpack_auth(ChallengeResponsePayload, it[3])  # noqa: SLF001
+                    ident = cid(pl.challenge_hash)
+                    r = pl.response[0] if len(pl.response) == 1 else 255
+                    c0, h0 = len(shim.calls), len(choices)
+                    deliver(it)
+                    await settle()
+                    scan_new_challenges()
+                    hon = 0
+                    if len(shim.calls) > c0 and shim.calls[c0][0] < 38 and len(choices) > h0:
+                        hon = choices[h0] + 1
+                    events.append((0, ident, r, hon))
+                    snaps.append(snapshot())
+                    if ident < n:
+                        delivered_ids.add(ident)
+                    delivered_responses.append(list(it[:4]))
+                else:
+                    deliver(it)
+                    await settle()
+                scan_new_challenges()
+
+            while inflight:
+                steps += 1
+                if steps > 40 * n + 200:
+                    raise _Diverged
+                u = rng.random()
+                if mode == "clean":
+                    await do_deliver(inflight[0])
+                elif mode == "dup-responses":
+                    it = inflight[0]
+                    await do_deliver(it, keep=(it[0] == 4 and len(it) < 6))
+                    if it in inflight and it[0] == 4:
+                        it.extend([None] * (6 - len(it)))      # mark: the copy is delivered next, then gone
+                elif mode == "dup-challenges":
+                    it = inflight[0]
+                    if it[0] == 3 and len(it) < 6:
+                        it.append(None)
+                        await do_deliver(it, keep=True)
+                    else:
+                        await do_deliver(it)
+                elif mode == "reorder":
+                    await do_deliver(rng.choice(inflight))
+                elif mode == "late-replay":
+                    if delivered_responses and budget["replay"] > 0 and u < 0.4:
+                        budget["replay"] -= 1
+                        old = list(rng.choice(delivered_responses))
+                        inflight.append(old)
+                        await do_deliver(old)
+                    else:
+                        await do_deliver(rng.choice(inflight))
+                else:   # lossy-timeouts, mixed
+                    pend_real = [c for c in verifier.request_cache._identifiers.values()  # noqa: SLF001
+                                 if c.prefix == "proving-hash"]
+                    if u < 0.15 and budget["drop"] > 0 and len(inflight) >= 3:
+                        budget["drop"] -= 1
+                        inflight.remove(rng.choice(inflight))
+                        ctx.count("community:dropped")
+                    elif u < 0.35 and budget["timeout"] > 0 and pend_real and len(inflight) >= 2:
+                        budget["timeout"] -= 1
+                        c = rng.choice(pend_real)
+                        verifier.request_cache.pop(c.prefix, c.number)      # what RequestCache does on a time-out
+                        events.append((1, idmap.get(c.number, 10 ** 6), 0, 0))
+                        snaps.append(snapshot())
+                        ctx.count("community:timeouts")
+                    elif mode == "mixed" and u < 0.6 and budget["dup"] > 0:
+                        budget["dup"] -= 1
+                        await do_deliver(rng.choice(inflight), keep=True)
+                        ctx.count("community:duplicated")
+                    elif mode == "mixed" and u < 0.7 and delivered_responses and budget["replay"] > 0:
+                        budget["replay"] -= 1
+                        old = list(rng.choice(delivered_responses))
+                        inflight.append(old)
+                        await do_deliver(old)
+                    else:
+                        await do_deliver(rng.choice(inflight))
+            # a few stale duplicates after everything is over
+            for old in delivered_responses[:3]:
+                cp = list(old)
+                inflight.append(cp)
+                await do_deliver(cp)
+            # ---- oracle ----------------------------------------------------------------------------------------
+            un, pend, rel, ncb = snapshot()
+            ctx.count(f"community:mode:{mode}")
+            ctx.count("community:" + ("completed" if results else "incomplete"))
+            ctx.count("community:events", len(events))
+            resp_ids = [e[1] for e in events if e[0] == 0]
+            ctx.count("community:repeated-response-deliveries", len(resp_ids) - len(set(resp_ids)))
+            cap = [sum(1 for i in delivered_ids if sums[i] == k) for k in range(4)]
+            if any(rel[k] > cap[k] for k in range(4)):
+                ctx.oracle_fail("on_challenge_response:answer-counted-twice",
+                                f"network mode {mode}: aggregate {rel} exceeds the histogram {cap} of the distinct "
+                                f"challenges that were answered (profile of the value {profile})", rp)
+            want_true = 1 - Fraction(1, 2 ** n)
+            for vals in results:
+                if not close(vals[0], want_true):
+                    ctx.oracle_fail("verify_attestation_values:true-value-score",
+                                    f"network mode {mode}: the completed verification scores the true value "
+                                    f"{vals[0]!r}, expected {float(want_true)!r} (aggregate {rel}, profile {profile})", rp)
+                for ov, sc in zip(others, vals[1:]):
+                    hfun = HASHES[FORMATS_BY_ID[id_format]][0]
+                    oprof = profile_of_bits(bits_of_digest(hfun(ov)))
+                    if oprof != profile and sc != 0.0:
+                        ctx.oracle_fail("verify_attestation_values:other-value-score",
+                                        f"network mode {mode}: value {ov!r} with another profile scores {sc!r}", rp)
+            if results and rel != profile:
+                ctx.oracle_fail("verify_attestation_values:aggregate", f"network mode {mode}: completed with aggregate "
+                                                                       f"{rel}, profile of the value is {profile}", rp)
+            # ---- model: the same event sequence through VState.run ----------------------------------------------
+            flat = [x for e in events for x in e]
+            impl = "|".join("u=%s;p=[%s];r=%s;k=%d;l=false" % (nat_list(u_), ",".join(f"{a}:{b}" for a, b in p_),
+                                                               ",".join(map(str, r_)), k_) for (u_, p_, r_, k_) in snaps)
+
+            def same(model, impl_):
+                def canon(sx):
+                    out = []
+                    for part in sx.split("|"):
+                        f = dict(kv.split("=", 1) for kv in part.split(";"))
+                        f["p"] = ",".join(sorted(f["p"].strip("[]").split(","))) if f["p"] != "[]" else ""
+                        out.append(f)
+                    return out
+                return canon(model) == canon(impl_)
+
+            batch.add(f"vrun {n} {nat_list(flat)}", impl, cmp=same, tag=f"verifier bookkeeping ({mode})")
+            ctx.case(("community", mode, value, sk.p, tuple(events)), True)
+    finally:
+        prover.request_cache.clear()
+        verifier.request_cache.clear()
+        for node in nodes:
+            await node.stop()
+        internet.clear()
+
+
+FORMATS_BY_ID = {"id_metadata": "sha256_4", "id_metadata_big": "sha256", "id_metadata_huge": "sha512"}
+
+
 # ---- tiers ------------------------------------------------------------------------------------------------------------
 def protocol_cases(ctx: Ctx, scale: float):
     rng = ctx.rng
@@ -1189,6 +1487,9 @@ def protocol_cases(ctx: Ctx, scale: float):
             sk = PengBaoRangeAlgorithm("r", {"r": {"algorithm": "pengbaorange", "key_size": 32, "min": 0,
                                                    "max": 1}}).generate_secret_key()
         range_round(ctx, batch, sk=sk, scenario=scen[i % len(scen)] if i < 2 * len(scen) else None)
+    n_comm = max(len(NET_MODES), int(14 * scale))
+    for i in range(n_comm):
+        community_round(ctx, batch, NET_MODES[i % len(NET_MODES)])
     batch.flush(ctx)
 
 
@@ -1299,6 +1600,12 @@ def replay(ctx: Ctx, rec: dict):
         for _ in range(6):
             range_round(ctx, batch, sk=sk, scenario=r["scenario"])
         print(f"replay: 6 range rounds, scenario {r['scenario']}: {'property FAILS' if ctx.failures else 'property holds'}")
+        return
+    if kind == "community":
+        for _ in range(6):
+            community_round(ctx, batch, r["mode"], r.get("id_format", "id_metadata"))
+        print(f"replay: 6 verifications over a network in mode {r['mode']}: "
+              f"{'property FAILS' if ctx.failures else 'property holds'}")
         return
     if kind in ("score", "relmap", "ipack", "encdec", "key"):
         scoring_cases(ctx, batch, 3000)
